@@ -147,10 +147,29 @@ def holds(facts: set[str], need: str) -> bool:
     return True
 
 
-def _establishing(v: FnView, fact: str) -> list:
-    """T/F nodes of the CFG whose outcome establishes `fact`."""
+def _node_facts(v: FnView) -> list:
+    """[(cfg node, set of facts its outcome establishes)] - computed once per function."""
+    cached = getattr(v, "_nf_cache", None)
+    if cached is not None:
+        return cached
     from .norm import facts as _facts
 
+    out = []
+    for n in v.cfg.nodes:
+        if n.kind in ("T", "F") and isinstance(n.node, ast.expr):
+            fs = set(_facts(n.node, n.kind == "T"))
+            for d in (1, 2, 3, 4):
+                fs |= set(_facts(n.node, n.kind == "T", v.res.src_at(d)))
+            h = inline_helper(v.prog, v.fn.module.rel, n.node)
+            if h is not None:
+                fs |= set(_facts(h, n.kind == "T"))
+            out.append((n, fs, {alpha(f, v.locals) for f in fs}))
+    v._nf_cache = out  # type: ignore[attr-defined]
+    return out
+
+
+def _establishing(v: FnView, fact: str) -> list:
+    """T/F nodes of the CFG whose outcome establishes `fact`."""
     out = []
     if fact.startswith("exhausted(") or fact.startswith("re:exhausted"):
         # a for loop ran to completion (no break / early return): its for-exit node
@@ -160,23 +179,16 @@ def _establishing(v: FnView, fact: str) -> list:
                 if (fact.startswith("re:") and re.fullmatch(fact[3:], f)) or f == fact:
                     out.append(n)
         return out
-    for n in v.cfg.nodes:
-        if n.kind in ("T", "F") and isinstance(n.node, ast.expr):
-            fs = set(_facts(n.node, n.kind == "T"))
-            for d in (1, 2, 3, 4):
-                fs |= set(_facts(n.node, n.kind == "T", v.res.src_at(d)))
-            h = inline_helper(v.prog, v.fn.module.rel, n.node)
-            if h is not None:
-                fs |= set(_facts(h, n.kind == "T"))
-            if fact.startswith("re:"):
-                if has_fact(fs, fact[3:]):
-                    out.append(n)
-            elif fact.startswith("raw:"):
-                want = alpha(fact[4:], v.locals)
-                if any(alpha(f, v.locals) == want for f in fs):
-                    out.append(n)
-            elif fact in fs:
+    want = alpha(fact[4:], v.locals) if fact.startswith("raw:") else None
+    for n, fs, afs in _node_facts(v):
+        if fact.startswith("re:"):
+            if has_fact(fs, fact[3:]):
                 out.append(n)
+        elif want is not None:
+            if want in afs:
+                out.append(n)
+        elif fact in fs:
+            out.append(n)
     return out
 
 
